@@ -56,6 +56,7 @@ func ruleVerifyWindow(c *RC) *RuleResult {
 			}
 		}
 		addRoot(c.phaseRoot(rec))
+		delegates := map[*FuncInfo]bool{}
 		builders := map[*FuncInfo]bool{}
 		for _, f := range c.senderOf("PrepareRequestType") {
 			builders[f] = true
@@ -94,6 +95,7 @@ func ruleVerifyWindow(c *RC) *RuleResult {
 			for _, cs := range c.A.callers[w] {
 				if g := c.phaseRoot(cs.Fn); !onlyB(g) {
 					addRoot(g)
+					delegates[w] = true // a helper that stores may leave what follows completion to its callers, all of them
 				}
 			}
 		}
@@ -154,6 +156,8 @@ func ruleVerifyWindow(c *RC) *RuleResult {
 				}
 				if bad == "" {
 					r.ok(fmt.Sprintf("%s: every path on which the last transaction arrives re-validates %s", root.Name, table))
+				} else if delegates[root] {
+					r.ok(fmt.Sprintf("%s leaves what follows the completion to its callers, which are judged each", root.Name))
 				} else {
 					r.fail(root.Name+"/completion-without-revalidation:"+table, c.Prog.Pos(root.Decl), fmt.Sprintf("on path {%s} the last missing transaction is recorded and %s is not called: entries of %s parked while the transaction was missing stay unverified and are counted (a watch-only validator leaves before the check, yet it processes the pre-block like every node)", bad, fn.Name, table))
 				}
